@@ -144,10 +144,15 @@ def finish (E : Env) (tl : Term) (cs : List Clause) : List Clause :=
     let cleaned := cs.filterMap (cleanClause E tl)
     if cleaned.any (·.isEmpty) then falseCnf else norm cleaned
 
-/-- `CNFizer.convert`; `none` = `NotImplementedError` (`walk_quantifier`; the walker visits every
-node, also those inside theory atoms) -/
+/-- why `convert` raises: `walk_quantifier` (`NotImplementedError`; the walker visits every node, also those
+inside theory atoms), or the root is not a formula: the walk answers the placeholder *string* and
+`tl, _cnf = self.walk(formula)` fails to unpack it (`ValueError`) -/
+def convertErr (t : Term) : Option String :=
+  if !t.isQF then some "NotImplementedError" else if ph t then some "ValueError" else none
+
+/-- `CNFizer.convert`; `none` = it raises (`convertErr`) -/
 def convert (E : Env) (t : Term) : Option (List Clause) :=
-  if t.isQF then some (finish E (enc E t).1 (enc E t).2) else none
+  if t.isQF && !ph t then some (finish E (enc E t).1 (enc E t).2) else none
 
 /-- `FormulaManager.And` / `Or` on a list -/
 def mkAndN : List Term → Term
@@ -184,6 +189,15 @@ def postorder : Term → List Term
 
 def keyOrder (t : Term) : List Term := dedup ((postorder t).filter wantsKey)
 
+/-- the Boolean skeleton: the nodes at Boolean positions that are connectives (atoms are not entered) — the
+only nodes whose definition variable can occur in the clauses; the polarity walker visits exactly these -/
+def boolNodes : Term → List Term
+  | .node op args p =>
+    match op with
+    | .and | .or | .not | .implies | .iff => (args.map boolNodes).flatten ++ [.node op args p]
+    | .ite => if ph (.node op args p) then [] else (args.map boolNodes).flatten ++ [.node op args p]
+    | _ => []
+
 /-! ## model of `FormulaManager.new_fresh_symbol` (`formula.py:119-128`) -/
 
 structure Supply where
@@ -214,37 +228,41 @@ def lookupKey (tbl : List (Term × Sym)) (g : Term) : Sym :=
   | some e => e.2
   | none => ⟨"", [], .bool⟩
 
-/-- the definition-variable table of a fresh `CNFizer` run on `t` in a manager that knows exactly
-the symbols of `t` -/
-def keyTable (t : Term) : List (Term × Sym) :=
-  assignKeys fvName ⟨t.fv.map (·.name), 0⟩ (keyOrder t)
+/-- the definition-variable table of a fresh `CNFizer` run on `t` in a manager in state `s` (any set of
+known symbol names, any value of the fresh counter) -/
+def keyTableIn (s : Supply) (t : Term) : List (Term × Sym) := assignKeys fvName s (keyOrder t)
+
+/-- … in a manager that knows exactly the symbols of `t` (what the driver uses) -/
+def keyTable (t : Term) : List (Term × Sym) := keyTableIn ⟨t.fv.map (·.name), 0⟩ t
+
+def envIn (simp : Term → Term) (s : Supply) (t : Term) : Env := ⟨lookupKey (keyTableIn s t), simp⟩
 
 /-- the environment of such a run -/
 def stdEnv (simp : Term → Term) (t : Term) : Env := ⟨lookupKey (keyTable t), simp⟩
 
 /-! ## advertised shape (specification, written from the property text)
 
-A *literal* is an atom or a negated atom; an *atom* is a Boolean term whose root is not a Boolean
-connective, a Boolean `ite` or a Boolean constant. -/
+A *literal* is an atom or a negated atom; an *atom* is a term of sort Bool (`typeOf = some .bool`) whose root is
+not a Boolean connective, a Boolean `ite` or a Boolean constant. -/
 
 def isBoolIte : Term → Bool
   | .node .ite [_, a, _] _ => a.typeOf == some .bool
   | _ => false
 
 def isAtomS (t : Term) : Bool :=
-  match t.op with
-  | .and | .or | .not | .implies | .iff | .boolConst | .forall_ | .exists_ => false
-  | .ite => !isBoolIte t
-  | _ => true
+  (match t.op with
+   | .and | .or | .not | .implies | .iff | .boolConst | .forall_ | .exists_ => false
+   | .ite => !isBoolIte t
+   | _ => true) && t.typeOf == some .bool
 
 def isLitS : Term → Bool
   | .node .not [a] _ => isAtomS a
   | t => isAtomS t
 
-/-- a set of clauses has the advertised shape: every member of every clause is a literal — or the
-CNF is one of the three degenerate answers `{{True}}`, `{{False}}`, `{{}}` -/
+/-- a set of clauses has the advertised shape: every clause is non-empty and every member of it is a literal —
+or the CNF is one of the three degenerate answers `{{True}}`, `{{False}}`, `{{}}` -/
 def shapeClauses (cs : List Clause) : Bool :=
-  cs == [[Term.tt]] || cs == [[Term.ff]] || cs == [[]] || cs.all (fun c => c.all isLitS)
+  cs == [[Term.tt]] || cs == [[Term.ff]] || cs == [[]] || cs.all (fun c => !c.isEmpty && c.all isLitS)
 
 /-- a formula is a conjunction of disjunctions of literals (as `And`/`Or` build them: a
 one-element conjunction/disjunction is the element itself, the empty ones are the constants) -/
